@@ -12,6 +12,7 @@ import RapidProofs.PruneProp
 import RapidProofs.PruneCustom
 import RapidProofs.TranslatedEq
 import RapidProofs.TranslatedDataEq
+import RapidProofs.TranslatedRecEq
 
 namespace Rapid.C04
 
@@ -125,6 +126,15 @@ theorem source_recording_calls (data : List UInt64) (groups : List Translated.gr
         .ok (data, groups.modify i (fun g => { g with end_ := Go.glen data, discard := d }), dl, true)
       else .error .assertion) :=
   ⟨tr_beginGroup data groups dl l s hd hg, tr_endGroup data groups dl i d hi (by omega)⟩
+
+/-- **the recording the source builds for any run is the model's**: the translated `record`, `beginGroup`, `endGroup`,
+    called in the order of the run of any program on any bit source, never stop at the assertion of `endGroup` and
+    leave the data and the group list of `recOfToks` (lengths below 2^62 words and 2^61 groups) -/
+theorem source_recording_of_run (p : Prog) (src : Src) (ts : TS)
+    (hd : (recOfToks (p.run src ts).toks).data.length < 2 ^ 62) (hg : (recOfToks (p.run src ts).toks).groups.length < 2 ^ 61) :
+    srcRecGo (p.run src ts).toks [] [] [] =
+      some ((recOfToks (p.run src ts).toks).data, (recOfToks (p.run src ts).toks).groups.map goOf) :=
+  srcRecGo_of_run p src ts hd hg
 
 /-- a recording made from the PRNG replays from a buffer (the PRNG never overruns) -/
 theorem words_are_masked (s s' : Src) (n : Nat) (u : UInt64) (h : s.next n = some (u, s')) : mask n u = u :=
